@@ -118,6 +118,9 @@ def run(ctx):
         for neg in (False, True):
             cases.append(("python_version %s '%s'" % ('not in' if neg else 'in', ctx.rng.choice([' ', ' ', '  ', '\t', '\n', ' \t']).join(ls)),
                           (lambda xy, ls=ls, neg=neg: pep440.holds_in(xy, ls, neg)), carved, ('in', neg, k)))
+    for blank in ('', ' ', '\t', '  '):
+        for neg in (False, True):
+            cases.append(("python_version %s '%s'" % ('not in' if neg else 'in', blank), (lambda xy, neg=neg: pep440.holds_in(xy, [], neg)), False, ('in-empty', neg)))
     expr_correspondence(ctx, sess, keys, [c[0] for c in cases])
     regs = {}
     for text, pred, carved, shape in cases:
